@@ -18,7 +18,7 @@ def check(ctx):
     ctx.sub(s4_order_diff)
     ctx.sub(s5_sizers)
     from . import c18
-    ctx.sub(c18.state_scan, ('PortfolioConstructionModel',))     # what it remembers between rebalances must not change what it answers (a vector handed out and then changed in place)
+    ctx.sub(c18.state_scan, ('PortfolioConstructionModel', 'DollarWeightedCashBufferedOrderSizer', 'LongShortLeveragedOrderSizer'))     # what it remembers between rebalances must not change what it answers (a vector handed out and then changed in place)
     from . import c08
     ctx.sub(c08.execution)             # once those orders fill: every order returned is submitted, none filtered
     from . import c04
@@ -243,6 +243,76 @@ def s2_s3_call(ctx):
 
 
 # ------------------------------------------------------------------------------------------------ S4
+def _order_loop_table(ctx, fn, p):
+    """The orders are appended in a loop over the assets whose body branches on the two quantities (kinds of trade, sides of the book, ...): the body as a decision
+    table over (target quantity, current quantity) in {-3, -1, 0, 2, 5}^2.  The property: an order of target - current where that is not zero, none where it is.
+    -> True when a verdict (violation with the witness point, or undecided 'agrees on the table') was recorded."""
+    from fractions import Fraction as F_
+    from ..symex import Valuation
+    from ..lib import read_marker
+    loops = [e for e in p.events if e.kind == 'loop']
+    lp = None
+    for e in reversed(loops):
+        if any(w.kind == 'write' and w.how == 'mut:append' and w.value is not None and any(s_[0] == 'new' and s_[1] == 'Order' for s_ in T.subterms(w.value))
+               for b in e.paths for w in b.flat_events()):
+            lp = e
+            break
+    if lp is None:
+        return False
+    qsubs = {s_ for b in lp.paths for t_ in [c_ for c_, _, _ in b.conds] for s_ in T.subterms(t_) if s_[0] == 'sub' and s_[2] == ('str', 'quantity')}
+    tq = [s_ for s_ in qsubs if s_[1][0] == 'sub' and s_[1][1] == V('target_portfolio')]
+    cq = [s_ for s_ in qsubs if s_[1][0] == 'sub' and s_[1][1] == V('current_portfolio')]
+    if len(tq) != 1 or len(cq) != 1:
+        return False
+    tq, cq = tq[0], cq[0]
+    what = 'order quantity = target quantity - current quantity, asset by asset; exactly the non-zero differences become orders'
+    vals = [F_(-3), F_(-1), F_(0), F_(2), F_(5)]
+    npts = 0
+    for t_ in vals:
+        for c_ in vals:
+            nv = Valuation(nums={fmt(tq): t_, fmt(cq): c_})
+            taken = []
+            for b in lp.paths:
+                if b.outcome not in ('fall', 'continue'):
+                    continue
+                ok = True
+                for cnd, val, _ in b.conds:
+                    if not any(s_ in (tq, cq) for s_ in T.subterms(cnd)):
+                        continue
+                    got = nv.evalbool(cnd)
+                    if got is None:
+                        ctx.undecided('C09.S4', what, lp.site, 'the loop body tests %s, which the table over the two quantities does not evaluate' % fmt(cnd)[:100])
+                        return True
+                    if got != val:
+                        ok = False
+                        break
+                if ok:
+                    taken.append(b)
+            if not taken:
+                ctx.undecided('C09.S4', what, lp.site, 'no path of the loop body is taken at target=%s, current=%s' % (t_, c_))
+                return True
+            for b in taken:
+                apps = [w for w in b.flat_events() if w.kind == 'write' and w.how == 'mut:append' and w.value is not None]
+                qs = [dict(s_[2]).get('quantity') for w in apps for s_ in T.subterms(w.value) if s_[0] == 'new' and s_[1] == 'Order']
+                want = t_ - c_
+                got = [nv.value(q_) if q_ is not None else None for q_ in qs]
+                if None in got:
+                    ctx.undecided('C09.S4', what, lp.site, 'an order quantity (%s) is not evaluated by the table' % fmt(qs[got.index(None)])[:100])
+                    return True
+                good = (got == [want]) if want != 0 else (got == [] or got == [F_(0)] and False)
+                if not good and read_marker(ctx, b):
+                    ctx.violation('C09.S4', what, lp.site, 'READ: with a target of %s and %s held the loop body [%s] orders %s where %s is required' % (
+                        t_, c_, cond_str(b)[:100], [str(g_) for g_ in got] or 'nothing', ('%s' % want) if want != 0 else 'no order'), key='C09.S4|diff')
+                    return True
+                if not good:
+                    ctx.undecided('C09.S4', what, lp.site, 'target=%s, current=%s gives %s on a path with calls the rule did not follow' % (t_, c_, got))
+                    return True
+            npts += 1
+    ctx.undecided('C09.S4', what, lp.site, 'the orders are appended in a loop whose body branches on the two quantities; it gives target - current (and no order for 0) at all %d '
+                  'points of the sign table, which is not a proof' % npts)
+    return True
+
+
 def s4_order_diff(ctx):
     qn = PCM + '._generate_rebalance_orders'
     fn = ctx.fn(qn)
@@ -253,6 +323,8 @@ def s4_order_diff(ctx):
     p = nps[0]
     v = p.value
     if not (v[0] == 'comp' and v[1] == 'list' and len(v[3]) == 1):
+        if _order_loop_table(ctx, fn, p):
+            return
         ctx.undecided('C09.S4', 'orders are one Order per asset (comprehension or append loop)', fn.site(), fmt(v)[:160])
         return
     tg, it, ifs = v[3][0]
